@@ -9,18 +9,20 @@ Local Open Scope list_scope.
 (* the per-item components of the class predicates *)
 Definition it_skip_text (it : item) : bool := negb (has_skip it) && existsb group_skip_text (it_attrs it).
 Definition it_skip_beside (it : item) : bool := has_skip it && negb (existsb group_skip_seen (it_attrs it)).
-Definition it_escape (it : item) : bool := match head_rename (concat (it_attrs it)) with Some v => needs_escape v | None => false end.
+Definition it_escape (it : item) : bool := match rename_of it with Some v => needs_escape v | None => false end.
 Definition it_rename_text (it : item) : bool :=
-  existsb (fun m => negb (is_rename m) && contains (L "rename") (meta_text m)) (concat (it_attrs it)).
-Definition it_sd (it : item) : bool := existsb (fun m => match m with MRenameP l => sd_bad l | _ => false end) (concat (it_attrs it)).
+  existsb (fun m => match m with
+                    | MRename _ => false
+                    | MRenameP l => p_bad l
+                    | _ => key_occurs (L "rename") (meta_text m) end) (concat (it_attrs it)).
 
-Lemma item_rename_ok it : item_ok it = true -> it_escape it = false -> it_rename_text it = false -> it_sd it = false ->
+Lemma item_rename_ok it : item_ok it = true -> it_escape it = false -> it_rename_text it = false ->
   fst (field_attrs (map group_string (it_attrs it))) = rename_of it.
-Proof. intros Hok He Hr Hsd. unfold item_ok in Hok. apply andb_true_iff in Hok as [Hok Hc]. apply Nat.leb_le in Hc.
+Proof. intros Hok He Hr. unfold item_ok in Hok. apply andb_true_iff in Hok as [Hok Hc]. apply Nat.leb_le in Hc.
   apply andb_true_iff in Hok as [_ Hoth].
-  rewrite item_rename; [| exact Hoth | | |exact Hc].
-  - unfold rename_of. apply head_rename_is_first; [exact Hoth|]. intros l Hl. exact (existsb_false_in _ _ Hsd (MRenameP l) Hl).
-  - intros m Hm Hnr. pose proof (existsb_false_in _ _ Hr m Hm) as H. cbn beta in H. rewrite Hnr in H. exact H.
+  apply item_rename; [exact Hoth| | | |exact Hc].
+  - intros m Hm Hnr. pose proof (existsb_false_in _ _ Hr m Hm) as H. cbn beta in H. destruct m; try discriminate; exact H.
+  - intros l Hl. exact (existsb_false_in _ _ Hr (MRenameP l) Hl).
   - intros v Hv. unfold it_escape in He. rewrite Hv in He. exact He. Qed.
 
 Lemma default_is_snake : default_case default_field_case = RSnake.
@@ -50,21 +52,21 @@ Proof. intros Hok Hcfg Hs. destruct k; cbn [is_struct] in *; [apply name_field; 
 Lemma emit_ok dfc k ra items :
   forallb item_ok items = true ->
   existsb it_skip_text items = false -> existsb it_skip_beside items = false ->
-  existsb it_escape items = false -> existsb it_rename_text items = false -> existsb it_sd items = false ->
+  existsb it_escape items = false -> existsb it_rename_text items = false ->
   (is_struct k = true -> ra = None -> existsb (cfg_differs dfc) items = false) ->
   emit_raw k dfc ra (map item_raw items)
   = map (wire_name k ra) (filter (fun it => negb (has_skip it)) items).
-Proof. induction items as [|it items IH]; intros Hok H2 H3 H4 H5 H8 H7; [reflexivity|].
+Proof. induction items as [|it items IH]; intros Hok H2 H3 H4 H5 H7; [reflexivity|].
   cbn [forallb] in Hok. apply andb_true_iff in Hok as [Hit Hok].
-  cbn [existsb] in H2, H3, H4, H5, H8.
+  cbn [existsb] in H2, H3, H4, H5.
   apply orb_false_iff in H2 as [A2 H2]. apply orb_false_iff in H3 as [A3 H3].
-  apply orb_false_iff in H4 as [A4 H4]. apply orb_false_iff in H5 as [A5 H5]. apply orb_false_iff in H8 as [A8 H8].
+  apply orb_false_iff in H4 as [A4 H4]. apply orb_false_iff in H5 as [A5 H5].
   assert (is_struct k = true -> ra = None -> cfg_differs dfc it = false /\ existsb (cfg_differs dfc) items = false) as H7'.
   { intros Hk Hr. specialize (H7 Hk Hr). cbn [existsb] in H7. apply orb_false_iff in H7. exact H7. }
   assert (is_struct k = true -> ra = None -> existsb (cfg_differs dfc) items = false) as H7t by (intros Hk Hr; apply (H7' Hk Hr)).
-  specialize (IH Hok H2 H3 H4 H5 H8 H7t).
+  specialize (IH Hok H2 H3 H4 H5 H7t).
   cbn [map emit_raw item_raw filter].
-  pose proof (item_rename_ok it Hit A4 A5 A8) as Hrn.
+  pose proof (item_rename_ok it Hit A4 A5) as Hrn.
   destruct (field_attrs (map group_string (it_attrs it))) as [rn sk] eqn:E. cbn [fst] in Hrn. subst rn.
   destruct (has_skip it) eqn:Hs.
   - unfold it_skip_beside in A3. rewrite Hs in A3. cbn [andb] in A3. apply negb_false_iff in A3.
@@ -82,8 +84,8 @@ Proof. intros Hd Hk Hcfg. unfold emitted_keys, emitted_keys_raw, serde_wire_name
   unfold kf_C06 in Hk. repeat (apply orb_false_iff in Hk as [Hk ?]).
   rewrite (struct_attrs_container c Hd) by assumption.
   unfold in_domain in Hd. apply andb_true_iff in Hd as [Hd _]. apply andb_true_iff in Hd as [Hd _]. apply andb_true_iff in Hd as [Hitems _].
-  match goal with X : kf_sd_first c = false |- _ => unfold kf_sd_first in X; apply orb_false_iff in X as [_ Hsd] end.
-  unfold kf_skip_text, kf_skip_beside, kf_rename_escape, kf_rename_text in *.
+  match goal with X : kf_rename_text c = false |- _ => unfold kf_rename_text in X; apply orb_false_iff in X as [Hrt _] end.
+  unfold kf_skip_text, kf_skip_beside, kf_rename_escape in *.
   apply emit_ok; try assumption.
   intros Hs Hr. unfold kf_config_case in Hcfg. rewrite Hs, Hr in Hcfg. exact Hcfg. Qed.
 
@@ -153,7 +155,7 @@ Definition w3 : container := {| c_kind := KStruct; c_attrs := [];
 Definition w3' : container := {| c_kind := KStruct; c_attrs := []; c_items := [it0 "a" []; it0 "b" [[MSkip]]] |}.
 Definition w4 : container := {| c_kind := KStruct; c_attrs := []; c_items := [it0 "a" [[MRename ["a"; """"; "b"]]]] |}.
 Definition w5 : container := {| c_kind := KStruct; c_attrs := [];
-  c_items := [it0 "e" [[MOther (L "default") (Some (L "rename")); MOther (L "alias") (Some (L "x"))]]] |}.
+  c_items := [it0 "e" [[MOther (L "default") (Some (L "a rename = b")); MOther (L "alias") (Some (L "x"))]]] |}.
 Definition w6 : container := {| c_kind := KEnum; c_attrs := []; c_items := [it0 "Active" []; it0 "Gone" [[MSkip]]] |}.
 
 Definition refutes (kf : container -> bool) (w : container) (got : list str) : Prop :=
@@ -170,7 +172,7 @@ Lemma skip_beside_refuted : refutes kf_skip_beside w3 [L "a"; L "b"] /\ serde_wi
 Proof. vm_compute. repeat split. Qed.
 Lemma rename_escape_refuted : refutes kf_rename_escape w4 [["a"; "\"]] /\ serde_wire_names w4 = [["a"; """"; "b"]].
 Proof. vm_compute. repeat split. Qed.
-Lemma rename_text_refuted : refutes kf_rename_text w5 [L "x"] /\ serde_wire_names w5 = [L "e"].
+Lemma rename_text_refuted : refutes kf_rename_text w5 [L " , alias = "] /\ serde_wire_names w5 = [L "e"].
 Proof. vm_compute. repeat split. Qed.
 (* repaired (C06-6-variant-skip): the old witness now satisfies the property *)
 Lemma variant_skip_repaired : in_domain w6 = true /\ kf_C06 w6 = false /\
@@ -199,10 +201,14 @@ Definition w8i : container := {| c_kind := KStruct; c_attrs := [];
                                  c_items := [it0 "a" [[MRenameP [(false, L "de_name"); (true, L "ser_name")]]]] |}.
 Definition w9 : container := {| c_kind := KEnum; c_attrs := [[CKV (L "rename_all_fields") (L "camelCase")]];
                                 c_items := [it0 "TaskStarted" []] |}.
-Lemma sd_first_refuted : refutes kf_sd_first w8 [L "userId"] /\ serde_wire_names w8 = [L "user_id"] /\
-  refutes kf_sd_first w8i [L "de_name"] /\ serde_wire_names w8i = [L "ser_name"].
-Proof. vm_compute. repeat split. Qed.
-Lemma rename_all_text_refuted : refutes kf_rename_all_text w9 [L "taskStarted"] /\ serde_wire_names w9 = [L "TaskStarted"].
+(* the former C06-5 witness (default = <rename>, alias = <x>) is repaired too: rename inside a value is no key *)
+Definition w5old : container := {| c_kind := KStruct; c_attrs := [];
+  c_items := [it0 "e" [[MOther (L "default") (Some (L "rename")); MOther (L "alias") (Some (L "x"))]]] |}.
+Definition repaired (w : container) (names : list str) : Prop :=
+  in_domain w = true /\ kf_C06 w = false /\ emitted_keys default_field_case w = names /\ c06_ok w names = true.
+Lemma spellings_repaired :
+  repaired w8 [L "user_id"] /\ repaired w8i [L "ser_name"] /\ repaired w9 [L "TaskStarted"] /\ repaired w5old [L "e"] /\
+  c06_ok w8 [L "userId"] = false /\ c06_ok w8i [L "de_name"] = false /\ c06_ok w9 [L "taskStarted"] = false.
 Proof. vm_compute. repeat split. Qed.
 Lemma variant_marker_is_variant sh : named_as_variant (variant_marker sh) = true.
 Proof. destruct sh; reflexivity. Qed.
